@@ -6,12 +6,12 @@
 set -e
 cd "$(dirname "$0")/.."
 R=${REPO:-/repo}
-P=$R/src/profiler
+P=${DAG_PROFILER:-$R/src/profiler}     # DAG_PROFILER=<dir>: build against a (patched) copy of the profiler sources, DAG_SUFFIX names the output
 CC=${CC:-gcc}
 CFLAGS=${DAG_CFLAGS:--O1 -g}
 LIBSRCS="dag_recorder chronological gen_stat gen_dot gen_gpl gen_text read_dag options papi_counters"
 for comp in ${DAG_COMPONENTS:-c18 c19}; do
-  out=build/$comp
+  out=build/$comp$DAG_SUFFIX
   mkdir -p $out/lib $out/scratch
   pids=()
   for f in $LIBSRCS; do
